@@ -522,7 +522,7 @@ def isbuiltinsubtype(t: type) -> compat.TypeIs[type[BuiltIntypeT]]:
         >>> isbuiltintype(Mapping)
         False
     """
-    return issubclass(resolve_supertype(t), BUILTIN_TYPES_TUPLE)
+    return _safe_issubclass(resolve_supertype(t), BUILTIN_TYPES_TUPLE)
 
 
 @compat.cache
